@@ -199,7 +199,7 @@ class CliSim:
                         r = rng.random()
                         if r < 0.6 and real:
                             p = rng.choice(real)
-                            rows.append([p[0], p[1], rng.choice(['hit', 'hit', 'mooring #3', 'site A#', '#1 buoy'])])
+                            rows.append([p[0], p[1], rng.choice(['hit', 'hit', 'mooring #3', 'site A#', '#1 buoy', 'Île aux Cygnes', 'Bahía 3'])])
                         elif r < 0.75:
                             w = worldgen.World(world)
                             polys = [pp for pp in (w.polygons() or []) if pp is not None]
@@ -235,7 +235,9 @@ class CliSim:
                         # the re-run the user would perform: same argv, same work dir, same output path
                         inv = dict(copy.deepcopy(inv), faults=[], rerun=True)
                 invs.append(inv)
-            lts.append({'invocations': invs, 'subprocess': rng.random() < (0.02 if not big else 0.01)})
+            lts.append({'invocations': invs, 'subprocess': rng.random() < (0.03 if not big else 0.01),
+                        # the environment of that real process: sometimes a plain C locale without UTF-8 mode
+                        'subprocess_ascii_locale': rng.random() < 0.5})
         return {'engine': self.name, 'world': world, 'lifetimes': lts, 'env': {'file_cache_maxsize': rng.choice([1, 2, 128, 128])}}
 
     @staticmethod
@@ -368,7 +370,7 @@ class CliSim:
             if uf == 'points_outside_error':
                 base = next((r for r in rows if r[0] is not None), [0.0, 0.0, ''])
                 rows.append([base[0] + 500.0, base[1] + 500.0, 'miss'])
-            with open(csv, 'w') as f:
+            with open(csv, 'w', encoding='utf-8') as f:
                 f.write(','.join(header) + '\n')
                 for r in rows:
                     if r[0] is None:
@@ -498,7 +500,7 @@ class CliSim:
                         continue
                     judged |= self._judge_invocation(out, world, plan, inv, p, r, stderr, fired, scratch, n > 0)
                     if lt.get('subprocess') and not fired and not inv.get('faults'):
-                        self._cross_check_subprocess(out, p, r, scratch)
+                        self._cross_check_subprocess(out, p, r, scratch, ascii_locale=bool(lt.get('subprocess_ascii_locale')))
                 k += 1
         out.signature = (world.conv, tuple(sig))
         out.nontrivial = {'C20': judged}
@@ -582,8 +584,11 @@ class CliSim:
             out.violate('C20', f'output-differs-{inv["cmd"]}', None, f'`{label}`: output differs from the library result: {cmp_["differences"][:3]}')
         return True
 
-    def _cross_check_subprocess(self, out, p, r, scratch):
+    def _cross_check_subprocess(self, out, p, r, scratch, ascii_locale=False):
         env = dict(os.environ)
+        if ascii_locale:
+            env.update({'LC_ALL': 'C', 'LANG': 'C', 'PYTHONUTF8': '0', 'PYTHONCOERCECLOCALE': '0'})
+            out.stats['probe.real_subprocess_in_ascii_locale'] += 1
         env['VERIF_NO_REEXEC'] = '1'
         # the production default (threaded dask over HDF5 with lock=False) races inside C libraries the simulator
         # does not control (emsarray issue #139); the cross-check validates the argv/exit-status seam, not that race
@@ -595,8 +600,8 @@ class CliSim:
         proc = subprocess.run([sys.executable, '-m', 'emsarray'] + argv, capture_output=True, text=True, env=env, cwd=scratch, timeout=300)
         out.stats['probe.real_subprocess_cross_check'] += 1
         if (proc.returncode == 0) != (r['status'] == 0):
-            out.violate('C20', 'in-process-seam-unfaithful', None,
-                        f'python -m emsarray exited {proc.returncode}, emsarray.cli.main(argv) in-process gave {r["status"]}: {proc.stderr[-300:]}')
+            out.violate('C20', 'in-process-seam-unfaithful' if not ascii_locale else 'differs-in-ascii-locale', None,
+                        f'python -m emsarray {"(LC_ALL=C, no UTF-8 mode) " if ascii_locale else ""}exited {proc.returncode}, emsarray.cli.main(argv) in-process gave {r["status"]}: {proc.stderr[-300:]}')
         out.event('subprocess', rc=proc.returncode)
 
 
